@@ -243,6 +243,26 @@ def straddle_layouts():
     return out
 
 
+LONG_COUNTS = [(4095, 4097), (4096, 9000), (9000, 4096), (4097, 8193)]       # (stco entries, co64 entries)
+STEPS_LONG = [("set", 30, "default"), ("set", 2, "zero"), ("delete", None, None)]
+MODEL_MAX_ENTRIES = 20000       # the extracted model is run on a long-table layout only up to this many entries in total
+
+
+def long_layouts():
+    """chunk offset tables with thousands of entries (consecutive 1-byte chunks): a table must be patched as a whole, whatever
+    its length; the long tables sit in the second and third trak (the first one receives the boundary entries)"""
+    out = []
+    for k, (n4, n8) in enumerate(LONG_COUNTS):
+        mlen = max(n4, n8) + 8
+        two = k % 2 == 1
+        out.append(("long-%d" % (k + 1), base_layout(
+            moov_first=not two, mdat_gen=(mlen, 60 + k), mdat2_gen=(mlen, 70 + k) if two else None,
+            traks=[(False, True, [0, 7]), (False, k % 2 == 0, [] if two else list(range(n4))), (True, True, [] if two else list(range(n8)))],
+            m2_entries={1: (list(range(n4)), False), 2: (list(range(0, n8)), True)} if two else None,
+            meta=[("h",), ("i",), ("f", 16)], moofs=[])))
+    return out
+
+
 def core_layouts():
     out = []
     n = 0
@@ -350,7 +370,12 @@ def jlayout(l):
     d["mdat_gen"] = list(l["mdat_gen"])
     d["mdat2_gen"] = list(l["mdat2_gen"]) if l.get("mdat2_gen") else None
     d["meta"] = [list(m) for m in l["meta"]]
-    d["traks"] = [[c, s, list(es)] for c, s, es in l["traks"]]
+    def short(es):
+        es = list(es)
+        if len(es) > 64 and es == list(range(es[0], es[0] + len(es))):
+            return ["seq", es[0], len(es)]
+        return es
+    d["traks"] = [[c, s, short(es)] for c, s, es in l["traks"]]
     d["moofs"] = [list(m) for m in l["moofs"]]
     return d
 
@@ -631,7 +656,7 @@ def usable(d):
 
 
 def all_layouts(ctx, nrandom):
-    ls = regression_layouts() + flag_layouts() + straddle_layouts() + core_layouts() + [random_layout(ctx.rng, i) for i in range(nrandom)]
+    ls = regression_layouts() + flag_layouts() + straddle_layouts() + long_layouts() + core_layouts() + [random_layout(ctx.rng, i) for i in range(nrandom)]
     return [(n, with_boundary_entries(l)) for n, l in ls]
 
 
@@ -644,8 +669,15 @@ def run_layouts(ctx, layouts, use_model=True, big=False):
             continue
         ctx.count("layout:" + name.split("-")[0])
         jl = jlayout(l)
-        for steps, fresh in ((STEPS_A, False), (STEPS_B, True)) + (((STEPS_BIG, False),) if big else ()):
-            nt = run_sequence(ctx, name, jl, d, steps, fresh, use_model)
+        plan = ((STEPS_A, False), (STEPS_B, True)) + (((STEPS_BIG, False),) if big else ())
+        um = use_model
+        if name.startswith("long-"):
+            plan = ((STEPS_LONG, False),) + (((STEPS_LONG, True),) if big else ())
+            um = use_model and sum(len(es) for _, _, es in l["traks"]) <= MODEL_MAX_ENTRIES
+            if use_model and not um:
+                ctx.count("long:oracle-only")
+        for steps, fresh in plan:
+            nt = run_sequence(ctx, name, jl, d, steps, fresh, um)
             ctx.case((name, fresh, repr(jl)) if nt else None,
                      {"layout": name, "file_len": len(d), "fresh": fresh, "steps": len(steps)} if ctx.evaluations % 23 == 0 else None)
 
@@ -786,7 +818,7 @@ def layout_from_json(j):
     l = dict(j)
     l["ilst"] = bytes.fromhex(j["ilst"])
     l["meta"] = [tuple(m) for m in j["meta"]]
-    l["traks"] = [(c, s, list(es)) for c, s, es in j["traks"]]
+    l["traks"] = [(c, s, list(range(es[1], es[1] + es[2])) if es[:1] == ["seq"] else list(es)) for c, s, es in j["traks"]]
     l["moofs"] = [tuple(m) for m in j["moofs"]]
     l["mdat_gen"] = tuple(j["mdat_gen"])
     l["mdat"] = mdat_bytes(*l["mdat_gen"])
